@@ -74,10 +74,22 @@ def run_case(spec):
             tol[i, j] = tol[j, i] = exact.dist_tol(L, Q[i], Q[j]) + 1e-300
     tr = ['rank_deficient'] if (L.shape[0] < ds.d or (L.size and np.linalg.matrix_rank(L) < ds.d)) else []
 
+    def swapped_mismatch(batch, values):
+        # Symmetry inside a large batch: the SAME batch with the two points of every pair swapped must give the same
+        # values bit for bit, row by row.  (Comparing row r with the row that holds the swapped pair would also compare
+        # two row positions of one BLAS call; the last row of an internal OpenBLAS block is rounded differently -
+        # measured: rows 13826 and 27653 of a 73735 x 8 times 8 x 1 product - which is not the library's arithmetic.)
+        sw = est.pair_distance(np.ascontiguousarray(batch[:, ::-1]))
+        bad = np.where(~((sw == values) | (np.isnan(sw) & np.isnan(values))))[0]
+        if len(bad):
+            r = int(bad[0])
+            return (r % (nq * nq)) // nq, (r % (nq * nq)) % nq, values[r], sw[r], r
+        return False
+
     def views():
-        yield 'pair_distance', D
+        yield 'pair_distance', D, None
         single = np.array([[est.pair_distance(pairs[i * nq + j][None])[0] for j in range(nq)] for i in range(nq)])
-        yield 'pair_distance(single-pair batches)', single
+        yield 'pair_distance(single-pair batches)', single, None
         reps = -(-BIG // len(pairs))
         tiled = np.tile(pairs, (reps, 1, 1))
         for exact_size in (4096, 2 ** 15):          # sizes that ARE multiples of every plausible block size
@@ -88,7 +100,7 @@ def run_case(spec):
             worst_p = np.zeros(nq * nq)
             np.maximum.at(worst_p, idx_p, devp)
             pick = np.array([part[idx_p == k_][np.argmax(devp[idx_p == k_])] for k_ in range(nq * nq)])
-            yield 'pair_distance(batch of %d pairs)' % exact_size, pick.reshape(nq, nq)
+            yield 'pair_distance(batch of %d pairs)' % exact_size, pick.reshape(nq, nq), swapped_mismatch(tiled[:exact_size], part)
         big = est.pair_distance(tiled[:BIG])
         # every copy of a pair inside the large batch must satisfy the same bound: fold by worst deviation
         folded = np.full(nq * nq, np.nan)
@@ -102,8 +114,8 @@ def run_case(spec):
         last = np.full(nq * nq, -1)
         last[idx[order]] = order                     # for every pair: position of its WORST copy inside the large batch
         folded = big[last]
-        yield 'pair_distance(batch of %d pairs)' % BIG, folded.reshape(nq, nq)
-        yield 'get_metric()', np.array([[metric(Q[i], Q[j]) for j in range(nq)] for i in range(nq)])
+        yield 'pair_distance(batch of %d pairs)' % BIG, folded.reshape(nq, nq), swapped_mismatch(tiled[:BIG], big)
+        yield 'get_metric()', np.array([[metric(Q[i], Q[j]) for j in range(nq)] for i in range(nq)]), None
         # the same function object called with two REUSED buffers that are overwritten in place between calls
         ub, vb = np.empty(ds.d), np.empty(ds.d)
         R = np.zeros((nq, nq))
@@ -112,10 +124,10 @@ def run_case(spec):
                 ub[:] = Q[i]
                 vb[:] = Q[j]
                 R[i, j] = metric(ub, vb)
-        yield 'get_metric() with reused argument buffers', R
+        yield 'get_metric() with reused argument buffers', R, None
 
     n_eval = 0
-    for vname, M in views():
+    for vname, M, swm in views():
         n_eval += M.size
         if not np.isfinite(M).all():
             i, j = np.argwhere(~np.isfinite(M))[0]
@@ -131,7 +143,11 @@ def run_case(spec):
         # exact duplicates in the alphabet: Q[1] and Q[3] are the same point
         if M[1, 3] != 0 or M[3, 1] != 0:
             viol.append(V(site, 'identity', '%s: distance between identical points is %r' % (vname, M[1, 3]), tr, view=vname))
-        if not np.array_equal(M, M.T):
+        if swm is not None:
+            if swm:
+                viol.append(V(site, 'symmetry', '%s: d(x,y)=%r but d(y,x)=%r for pair (%d,%d) [row %d of the batch, same row of the swapped batch]'
+                              % (vname, swm[2], swm[3], swm[0], swm[1], swm[4]), tr, view=vname))
+        elif not np.array_equal(M, M.T):
             i, j = np.argwhere(M != M.T)[0]
             viol.append(V(site, 'symmetry', '%s: d(x,y)=%r but d(y,x)=%r for pair (%d,%d)' % (vname, M[i, j], M[j, i], i, j),
                           tr, view=vname))
